@@ -211,7 +211,12 @@ type nolog struct{}
 
 func (nolog) Printf(string, ...interface{}) {}
 
-func rootNanos(size int) uint64 { return uint64(1700000000)*1e9 + uint64(size)*1e9 + 123456789 }
+// rootNanos: the backend's root timestamp for a tree of the given size. The sub-millisecond part walks through the
+// positions a conversion to milliseconds can get wrong: mid-millisecond, 10 ns before the next one, 1 ns before the
+// next second, exactly on a millisecond.
+func rootNanos(size int) uint64 {
+	return uint64(1700000000)*1e9 + uint64(size)*1e9 + []uint64{123456789, 123999990, 999999999, 77000000}[size%4]
+}
 
 type checker struct {
 	r   *rep.R
